@@ -88,11 +88,16 @@ type Unit struct {
 	obls     []*Obl
 	heapSort map[string]string
 	dry      int
+	epochCtr int
 	freshRefs map[string]bool
+	closureSeen map[string]bool
 	heapPtr  map[string]string // heaps whose cells hold references: "cell" | "mapval" | "arr" | "slicecell" | "slicearr" | "slicemapval"
 	pendingBounds []string
 	dryRows  map[string]map[string]bool
 	dryWhole map[string]bool
+	dryFresh map[string]bool
+	blacklist  map[string]bool
+	autoFailed []string
 	notes    map[string]bool
 	errs     []string
 	fnName   string
@@ -164,6 +169,9 @@ func (u *Unit) heapCur(st *State, name string) string {
 	if strings.HasPrefix(name, "$defer:") || strings.HasPrefix(name, "$called:") {
 		return "false"
 	}
+	if strings.HasPrefix(name, "$count:") || strings.HasPrefix(name, "$cnttrue:") {
+		return "0"
+	}
 	srt, ok := u.heapSort[name]
 	if !ok {
 		panic("unregistered heap " + name)
@@ -198,15 +206,15 @@ func (u *Unit) boundFact(name, c, alloc string) string {
 	srt := u.heapSort[name]
 	switch shape {
 	case "cell":
-		return fmt.Sprintf("(forall ((r!b Int)) (! (<= (select %s r!b) %s) :pattern ((select %s r!b))))", c, alloc, c)
+		return fmt.Sprintf("(forall ((r!b Int)) (! (=> (<= r!b %s) (<= (select %s r!b) %s)) :pattern ((select %s r!b))))", alloc, c, alloc, c)
 	case "slicecell":
-		return fmt.Sprintf("(forall ((r!b Int)) (! (<= (sl_base (select %s r!b)) %s) :pattern ((select %s r!b))))", c, alloc, c)
+		return fmt.Sprintf("(forall ((r!b Int)) (! (=> (<= r!b %s) (<= (sl_base (select %s r!b)) %s)) :pattern ((select %s r!b))))", alloc, c, alloc, c)
 	case "mapval", "arr":
 		ks := arrayDomain(arrayRange(srt))
-		return fmt.Sprintf("(forall ((r!b Int) (k!b %s)) (! (<= (select (select %s r!b) k!b) %s) :pattern ((select (select %s r!b) k!b))))", ks, c, alloc, c)
+		return fmt.Sprintf("(forall ((r!b Int) (k!b %s)) (! (=> (<= r!b %s) (<= (select (select %s r!b) k!b) %s)) :pattern ((select (select %s r!b) k!b))))", ks, alloc, c, alloc, c)
 	case "slicemapval", "slicearr":
 		ks := arrayDomain(arrayRange(srt))
-		return fmt.Sprintf("(forall ((r!b Int) (k!b %s)) (! (<= (sl_base (select (select %s r!b) k!b)) %s) :pattern ((select (select %s r!b) k!b))))", ks, c, alloc, c)
+		return fmt.Sprintf("(forall ((r!b Int) (k!b %s)) (! (=> (<= r!b %s) (<= (sl_base (select (select %s r!b) k!b)) %s)) :pattern ((select (select %s r!b) k!b))))", ks, alloc, c, alloc, c)
 	}
 	return ""
 }
@@ -273,12 +281,12 @@ func (u *Unit) havocAll(st *State) {
 	// keep ghost call flags (they only record history)
 	keep := map[string]string{}
 	for k, v := range st.heaps {
-		if strings.HasPrefix(k, "$called:") || strings.HasPrefix(k, "$ret:") || strings.HasPrefix(k, "$first:") || strings.HasPrefix(k, "$defer:") || strings.HasPrefix(k, "$visited:") || strings.HasPrefix(k, "L$") {
+		if strings.HasPrefix(k, "$called:") || strings.HasPrefix(k, "$ret:") || strings.HasPrefix(k, "$first:") || strings.HasPrefix(k, "$count:") || strings.HasPrefix(k, "$cnttrue:") || strings.HasPrefix(k, "$defer:") || strings.HasPrefix(k, "$visited:") || strings.HasPrefix(k, "L$") {
 			keep[k] = v
 		}
 	}
-	u.cx.epochCtr++
-	st.epoch = u.cx.epochCtr
+	u.epochCtr++
+	st.epoch = u.epochCtr
 	st.heaps = keep
 	na := u.heapHavoc(st, "$alloc")
 	u.assume(app(">=", na, alloc))
@@ -508,7 +516,7 @@ func (u *Unit) zeroInit(st *State, r string, t types.Type) {
 	h := u.cellHeap(t)
 	if a, ok := t.Underlying().(*types.Array); ok && !opaqueStruct(t) {
 		es := u.enc.sortOf(a.Elem())
-		z := fmt.Sprintf("((as const (Array Int %s)) %s)", es, u.enc.zero(a.Elem()))
+		z := u.enc.constArr("Int", es, u.enc.zero(a.Elem()))
 		u.heapStoreAt(st, h, r, z)
 		return
 	}
